@@ -23,7 +23,7 @@ RULE = ('Seeded histories of 2..8 operations on a directory with <= 3 paths: put
 ASSUMPTIONS = ['fault-free by statement: no crash / truncation is injected here', 'SED values are compared within 1e-12 relative (SED.read multiplies and divides by nu even when the unit is unchanged); cube and convolved files exactly',
                'for an SED written without apertures only the single row of values is required (apertures need not come back as None)']
 PROBES = ['overwrite_other_shape', 'sed_asc_written', 'sed_desc_written', 'cube_no_unc', 'cube_no_apertures', 'cube_memmap_read', 'cube_get_sed',
-          'read_order_wav', 'read_order_nu', 'unit_erg', 'unit_jy', 'conv_no_apertures', 'stale_memmap_reader', 'sed_no_apertures', 'gz_path', 'gz_sibling_present']
+          'read_order_wav', 'read_order_nu', 'unit_erg', 'unit_jy', 'conv_no_apertures', 'stale_memmap_reader', 'sed_no_apertures', 'gz_path', 'gz_sibling_present', 'read_in_other_unit']
 
 
 def budgets(tier):
@@ -56,7 +56,7 @@ def generate(rng, tier, idx):
         else:
             p = rng.choice(sorted(stored))
             st = {'op': 'get', 'path': p, 'order': rng.choice(['nu', 'wav']), 'memmap': rng.random() < 0.5, 'pick': rng.randrange(100),
-                  'keep_open': rng.random() < 0.3}
+                  'keep_open': rng.random() < 0.3, 'read_unit': rng.choice([None, None] + UNITS)}
             steps.append(st)
     if rng.random() < 0.3:
         steps.append({'op': 'get_stale'})
@@ -263,6 +263,21 @@ def _execute(sc, sim, out):
                 msg = 'name/distance %s %s' % (s.name, s.distance)
             elif R.aps is not None and not np.allclose(s.apertures.to(u.au).value, R.aps, rtol=1e-12, atol=0):
                 msg = 'apertures %s, stored %s' % (s.apertures, R.aps)
+            if msg is None and st.get('read_unit') and st['read_unit'] != o['unit']:
+                # requesting the other order only reverses the spectral axis - also when another flux unit is requested
+                # (the conversion itself is C15's subject and is not judged: only that the two reads are mirror images)
+                ru = _unit(st['read_unit'])
+                ra = pipe.call(SED.read, p, unit_flux=ru, order='nu')
+                rb = pipe.call(SED.read, p, unit_flux=ru, order='wav')
+                out.probe('read_in_other_unit')
+                if ra[0] != 'ok' or rb[0] != 'ok':
+                    msg = 'reading in unit %s raised %s' % (st['read_unit'], pipe.exc_name(ra) or pipe.exc_name(rb))
+                else:
+                    a, b = ra[1], rb[1]
+                    out.compared('sed-order-mirror', int(R.val[0].size))
+                    if not (np.allclose(a.wav.value, b.wav.value[::-1], rtol=1e-14, atol=0) and np.allclose(a.nu.value, b.nu.value[::-1], rtol=1e-14, atol=0)
+                            and np.allclose(a.flux.value, b.flux.value[..., ::-1], rtol=1e-12, atol=0) and np.allclose(a.error.value, b.error.value[..., ::-1], rtol=1e-12, atol=0)):
+                        msg = 'read in %s: order=wav is not the mirror image of order=nu (wavelengths, frequencies, values and errors must reverse together)' % st['read_unit']
         elif o['kind'] == 'cube':
             r = pipe.call(SEDCube.read, p, order=order, memmap=st['memmap'])
             if r[0] != 'ok':
